@@ -274,6 +274,11 @@ def run(ctx):
                 ctx.stat("errors:%d" % min(len(c.impl["errors"]), 3))
                 for e in c.impl["errors"]:
                     ctx.stat("error-kind:" + e["kind"])
+                    if e["kind"] == "resolver" and (e.get("msg") or "")[:1] in ("R", "T"):
+                        # ResolverError raised while the value was being completed (7b8e151)
+                        ctx.stat("completion-error:" + ("lazy-iterable" if e["msg"][0] == "R" else "resolve_type"))
+                    if e["kind"] == "directive":
+                        ctx.stat("directive-error:" + ("root" if not e["path"] else "nested"))
             elif "internal" in c.impl:
                 ctx.stat("impl-internal:" + c.impl["internal"])
                 if c.mode == 0:
